@@ -820,6 +820,12 @@ def library(base, attr):
         raise Unsupported("library function %s.%s" % (base, attr))
     if base == "copy" and attr == "copy":
         return VBuiltin("copy.copy", _b_copy)
+    if base == "warnings":
+        # warnings.warn(...) has no effect on values (A3)
+        if attr is None:
+            return VModule("warnings", {"warn": VBuiltin("warnings.warn", lambda i, s, a, k: None)})
+        if attr == "warn":
+            return VBuiltin("warnings.warn", lambda i, s, a, k: None)
     if base == "__future__":
         return None if attr is None else True
     return None
